@@ -39,6 +39,8 @@ class Universe:
                         ("ULT", "ULE", "UGT", "UGE", "SLT", "SLE", "SGT", "SGE", "And", "Or", "Not", "If", "BVV", "BoolV",
                          "Extract", "Concat", "ZeroExt", "SignExt", "LShR")})
         self.ns["true"], self.ns["false"] = claripy.true(), claripy.false()
+        # the variable x carrying an annotation: same meaning, but an AST whose hash differs from process to process
+        self.ns["xa"] = self.sym["x"].annotate(claripy.annotation.UninitializedAnnotation())
 
     def parse(self, s):
         """expression language of replays: a Python expression over the variables and claripy constructors.
@@ -223,10 +225,10 @@ BOOLS = ["b", "ULT(x, 3)", "x == 5", "Or(x == 1, x == 2)", "SLT(y, 0)", "ULE(x, 
 #  solution{e,v,extra}  is_true/is_false{e,extra}  simplify  downsize  branch (creates solver index len(solvers))
 
 def gen_history(rng, length, calpha=CONSTRAINTS, ealpha=EXPRS, balpha=BOOLS, uni=None, max_solvers=4,
-                weights=None, threads=0):
+                weights=None, threads=0, replace=0.0):
     if threads:
         # thread hand-off: the same history, each call tagged with the thread that makes it (runs of calls per thread)
-        hist, t = gen_history(rng, length, calpha, ealpha, balpha, uni, max_solvers, weights), 0
+        hist, t = gen_history(rng, length, calpha, ealpha, balpha, uni, max_solvers, weights, replace=replace), 0
         for d in hist:
             if rng.random() < 0.3:
                 t = rng.randrange(threads + 1)
@@ -249,6 +251,7 @@ def gen_history(rng, length, calpha=CONSTRAINTS, ealpha=EXPRS, balpha=BOOLS, uni
     # batch_eval over several expressions each enumerated before, with n beyond what exists; equalities whose
     # symbolic side is a compound expression queried before (ReplacementFrontend keys its cache by such sides)
     queried = {0: []}
+    used = {0: set()}      # variables the solver's constraints mention (for `replace`)
     for _ in range(length):
         op = rng.choices(names, ws)[0]
         s = rng.randrange(nsolv)
@@ -264,10 +267,20 @@ def gen_history(rng, length, calpha=CONSTRAINTS, ealpha=EXPRS, balpha=BOOLS, uni
             hist.append({"s": s, "op": "batch_eval", "es": es, "n": 300, "extra": []})
             continue
         if op == "add":
-            if q and rng.random() < 0.15:
+            fresh = [v for v in ("x", "y", "z") if v not in used[s]]
+            if replace and fresh and rng.random() < replace:
+                # SolverReplacement.add_replacement(variable, constant) for a variable no constraint mentions yet: from
+                # then on the solver answers as if `variable == constant` had been added (which is how the reference
+                # takes it); run_history calls add_replacement when the solver has it
+                v, c = rng.choice(fresh), rng.randrange(8)
+                d["cs"] = ["(%s) == %d" % (v, c)]
+                d["repl"] = [v, c]
+            elif q and rng.random() < 0.15:
                 d["cs"] = ["(%s) == %d" % (rng.choice(q), rng.randrange(8))]
             else:
                 d["cs"] = [rng.choice(calpha) for _ in range(1 if rng.random() < 0.8 else 2)]
+            for c in d["cs"]:
+                used[s] |= _vars_of(c)
         elif op == "satisfiable":
             d["extra"] = extra()
         elif op == "eval":
@@ -290,12 +303,18 @@ def gen_history(rng, length, calpha=CONSTRAINTS, ealpha=EXPRS, balpha=BOOLS, uni
             d.update(e=rng.choice(balpha), extra=extra())
         elif op == "unsat_core":
             d["extra"] = []
-        elif op in ("split", "combine", "merge", "pickle"):
+        elif op == "pickle":
+            # what a restored solver says first is often the plain satisfiability question
+            if rng.random() < 0.5:
+                hist.append(d)
+                d = {"s": s, "op": "satisfiable", "extra": []}
+        elif op in ("split", "combine", "merge"):
             pass
         elif op == "branch":
             if nsolv >= max_solvers:
                 continue
             queried[nsolv] = list(q)
+            used[nsolv] = set(used[s])
             nsolv += 1
         hist.append(d)
     return hist
@@ -715,6 +734,11 @@ def apply_op(uni, solvers, d):
     kw = {"exact": False} if d.get("approx") else {}
     try:
         if op == "add":
+            if d.get("repl") and hasattr(s, "add_replacement"):
+                import claripy
+                old = uni.parse(d["repl"][0])
+                s.add_replacement(old, claripy.BVV(d["repl"][1] % (1 << old.size()), old.size()))
+                return ("ok", None)
             r = s.add([uni.parse(c) for c in d["cs"]])
             return ("ok", None if r is None else len(r))
         if op == "satisfiable":
@@ -956,6 +980,112 @@ def run_history(uni, cls, cfg, hist, on_step=None):
         bz.reuse_z3_solver = saved
         if hasattr(bz._tls, "solver"):
             bz._tls.solver = None
+
+
+# ----------------------------------------------------------------------------------------------- twin runs
+# SolverReplacement.add_replacement(variable, constant) is not a constraint (the actual frontend never hears of it), so
+# histories that use it have no brute-force reading.  What the properties still say about them is relative: a solver
+# restored from a pickle answers like the original (C18); downsize() changes no answer (C11 / C13).  Both are decided by
+# running two solver tuples side by side and comparing every answer (eval / batch_eval with n beyond the number of
+# values that exist, so that both must return the complete set).
+
+_UNI = []
+
+
+def _norm_out(d, out):
+    if not _UNI:
+        _UNI.append(Universe())
+    if out[0] != "ok":
+        return (out[0],) + tuple(out[1:2] if out[0] == "err" else ())
+    if d["op"] in ("eval", "batch_eval"):
+        if len(out[1]) >= d["n"]:
+            return ("ok", "n values")        # more exist than were asked for: which ones come back is free
+        return ("ok", tuple(sorted(tuple(t) if isinstance(t, (list, tuple)) else (t,) for t in out[1])))
+    if d["op"] in ("add", "simplify", "downsize", "branch", "pickle"):
+        return ("ok",)
+    if d["op"] in ("min", "max"):
+        # an optimum is a bit pattern: the caches hand back the unsigned reading, the solver path the signed one
+        return ("ok", out[1] % (1 << _UNI[0].parse(d["e"]).size()))
+    return ("ok", out[1])
+
+
+def run_twin(uni, cls, cfg, hist, mode, cut=0):
+    """mode "restored": run hist[:cut], copy the solver tuple through pickle, run hist[cut:] on both.
+    mode "no-downsize": run hist on one tuple and hist without its downsize calls on another.
+    Returns [(index, kind, explanation)] for the calls whose answers differ."""
+    import pickle
+    import claripy.backends
+    bz = claripy.backends.z3
+    saved = bz.reuse_z3_solver
+    bz.reuse_z3_solver = bool(cfg.get("reuse", False))
+    try:
+        if hasattr(bz._tls, "solver"):
+            bz._tls.solver = None
+        a = [SOLVER_CLASSES[cls]()]
+        b = None if mode == "restored" else [SOLVER_CLASSES[cls]()]
+        fails = []
+        for k, d in enumerate(hist):
+            if mode == "restored" and k == cut:
+                b = pickle.loads(pickle.dumps(a, -1))
+            d = dict(d)
+            if "n" in d:
+                d["n"] = 300
+            if d["s"] >= len(a):
+                continue
+            oa = apply_op(uni, a, d)
+            if b is None:
+                continue
+            if mode == "no-downsize" and d["op"] == "downsize":
+                continue
+            ob = apply_op(uni, b, d)
+            na, nb = _norm_out(d, oa), _norm_out(d, ob)
+            if na != nb:
+                kind = "restored-differs" if mode == "restored" else "downsize-changes-answer"
+                fails.append((k, kind, "%s: %s, %s: %s" % ("original" if mode == "restored" else "with downsize()", str(na)[:160],
+                                                           "restored" if mode == "restored" else "without", str(nb)[:160])))
+                break
+        return fails
+    finally:
+        bz.reuse_z3_solver = saved
+        if hasattr(bz._tls, "solver"):
+            bz._tls.solver = None
+
+
+def twin_search(uni, rng, cls, mode, n, length, weights=None):
+    """random histories with user-level replacements; returns the shrunk failing ones (each reproduced twice)"""
+    w = weights or {"add": 24, "satisfiable": 8, "eval": 14, "batch_eval": 5, "min": 8, "max": 8, "solution": 8, "simplify": 3,
+                    "downsize": 8, "branch": 4}
+    found, ran = [], 0
+    for _ in range(n):
+        hist = gen_history(rng, length, weights=w, replace=0.3)
+        cut = rng.randrange(1, max(2, len(hist) - 2)) if mode == "restored" else 0
+        ran += len(hist)
+        cfg = {"track": False, "reuse": False}
+        f = run_twin(uni, cls, cfg, hist, mode, cut)
+        if not f or not run_twin(uni, cls, cfg, hist, mode, cut):
+            continue
+        k = f[0][0]
+        hist = hist[:k + 1]
+        # shrink: drop calls (not the failing one) while the two runs still differ at the last call
+        i = 0
+        while i < len(hist) - 1:
+            if hist[i]["op"] == "branch":
+                i += 1
+                continue
+            cand = hist[:i] + hist[i + 1:]
+            c2 = cut - 1 if (mode == "restored" and i < cut) else cut
+            if mode == "restored" and c2 < 1:
+                i += 1
+                continue
+            f2 = run_twin(uni, cls, cfg, cand, mode, c2)
+            if f2 and f2[0][0] == len(cand) - 1 and run_twin(uni, cls, cfg, cand, mode, c2):
+                hist, cut = cand, c2
+            else:
+                i += 1
+        f = run_twin(uni, cls, cfg, hist, mode, cut)
+        if f:
+            found.append({"cls": cls, "cfg": cfg, "hist": hist, "cut": cut, "mode": mode, "fails": [list(f[0])]})
+    return found, ran
 
 
 def normalise(hist):
